@@ -197,8 +197,9 @@ def to_normalized(gname, gkw, D, N, L, dt, M=1.0):
                 ("DifficultyConvectionStepper", dict(linear_difficulties=ga, convection_difficulty=b * M * N * D, maximum_absolute=M, **flags)))
     if gname == "GeneralGradientNormStepper":
         b = gkw["gradient_norm_scale"] * dt / L ** 2
-        return (("NormalizedGradientNormStepper", dict(normalized_linear_coefficients=al, normalized_gradient_norm_scale=b)),
-                ("DifficultyGradientNormStepper", dict(linear_difficulties=ga, gradient_norm_difficulty=b * M * N ** 2 * D, maximum_absolute=M)))
+        fr = {k: v for k, v in flags.items() if k == "dealiasing_fraction"}
+        return (("NormalizedGradientNormStepper", dict(normalized_linear_coefficients=al, normalized_gradient_norm_scale=b, **fr)),
+                ("DifficultyGradientNormStepper", dict(linear_difficulties=ga, gradient_norm_difficulty=b * M * N ** 2 * D, maximum_absolute=M, **fr)))
     if gname == "GeneralPolynomialStepper":
         p = tuple(c * dt for c in gkw["polynomial_coefficients"])
         return (("NormalizedPolynomialStepper", dict(normalized_linear_coefficients=al, normalized_polynomial_coefficients=p, **flags)),
@@ -206,9 +207,10 @@ def to_normalized(gname, gkw, D, N, L, dt, M=1.0):
     if gname == "GeneralNonlinearStepper":
         b = gkw["nonlinear_coefficients"]
         nb = (b[0] * dt, b[1] * dt / L, b[2] * dt / L ** 2)
-        return (("NormalizedNonlinearStepper", dict(normalized_linear_coefficients=al, normalized_nonlinear_coefficients=nb)),
+        fr = {k: v for k, v in flags.items() if k == "dealiasing_fraction"}
+        return (("NormalizedNonlinearStepper", dict(normalized_linear_coefficients=al, normalized_nonlinear_coefficients=nb, **fr)),
                 ("DifficultyNonlinearStepper", dict(linear_difficulties=ga, nonlinear_difficulties=(nb[0], nb[1] * M * N * D, nb[2] * M * N ** 2 * D),
-                                                    maximum_absolute=M)))
+                                                    maximum_absolute=M, **fr)))
     return (None, None), (None, None)
 
 
